@@ -991,3 +991,73 @@ def _path_extension(I, a, ci, dt):
 def _is_absolute(I, a, ci, dt):
     p = as_sstr(I, a[0]).b
     return len(p) > 0 and beq(p[0], 47)
+
+
+def path_components(I, bs):
+    """[(start, end)] of the normal components of a Unix path (empty and `.` components dropped, as
+    std::path::Components does; `..` is kept), and whether the path is absolute."""
+    comps = []
+    n = len(bs)
+    i = 0
+    absolute = n > 0 and I.branch(beq(bs[0], 47))
+    while i < n:
+        if I.branch(beq(bs[i], 47)):
+            i += 1
+            continue
+        j = i
+        while j < n and not I.branch(beq(bs[j], 47)):
+            j += 1
+        if j - i == 1 and I.branch(beq(bs[i], 46)) and (comps or absolute):
+            pass          # a `.` that is not the very first component of a relative path
+        else:
+            comps.append((i, j))
+        i = j
+    return comps, absolute
+
+
+@reg('Path::strip_prefix')
+def _path_strip_prefix(I, a, ci, dt):
+    s = as_sstr(I, a[0])
+    base = as_sstr(I, a[1])
+    sc, sabs = path_components(I, s.b)
+    bc, babs = path_components(I, base.b)
+    err = Err(Struct('StripPrefixError', ()))
+    if sabs != babs or len(bc) > len(sc):
+        return err
+    for (x0, x1), (y0, y1) in zip(sc, bc):
+        if x1 - x0 != y1 - y0 or not I.branch(bytes_equal(s.b[x0:x1], base.b[y0:y1])):
+            return err
+    rest = sc[len(bc):]
+    if not rest:
+        return Ok(sub(s, len(s.b), len(s.b)))
+    return Ok(sub(s, rest[0][0], rest[-1][1]))
+
+
+@reg('Path::ancestors')
+def _path_ancestors(I, a, ci, dt):
+    from .models import ListIter
+    s = as_sstr(I, a[0])
+    comps, absolute = path_components(I, s.b)
+    out = [s]
+    for k in range(len(comps) - 1, 0, -1):
+        out.append(sub(s, 0, comps[k - 1][1]))
+    if comps:
+        out.append(sub(s, 0, 1 if absolute else 0))
+    return ListIter(out)
+
+
+@reg('Path::starts_with')
+def _path_starts_with(I, a, ci, dt):
+    r = _path_strip_prefix(I, a, ci, dt)
+    return r.v == 0
+
+
+@reg('Path::parent')
+def _path_parent(I, a, ci, dt):
+    s = as_sstr(I, a[0])
+    comps, absolute = path_components(I, s.b)
+    if not comps:
+        return NONE
+    if len(comps) == 1:
+        return Some(sub(s, 0, 1 if absolute else 0))
+    return Some(sub(s, 0, comps[-2][1]))
